@@ -132,6 +132,12 @@ func (p *c06) Gen(seed uint64, i int, tier string) (any, bool) {
 				if field == "from" && op.Kind == "set" && r.Chance(1, 6) {
 					op.Kind = "ignoreinvalid"
 				}
+				if field == "envfrom" && r.Chance(1, 4) {
+					// the envelope sender is taken back: set to nothing, or to something that is
+					// no address through the setter that ignores invalid input — From is the
+					// envelope sender again
+					op.Kind = sim.Pick(r, []string{"clear-empty", "clear-ignoreinvalid"})
+				}
 			default:
 				op.Kind = sim.Pick(r, []string{"set", "add", "addformat", "ignoreinvalid", "fromstring", "add"})
 				na := 1
@@ -259,6 +265,14 @@ func (p *c06) Exec(t *testing.T, scAny any) Outcome {
 					switch op.Field {
 					case "from", "envfrom", "replyto":
 						switch {
+						case op.Kind == "clear-empty":
+							_ = m.SetAddrHeader(mail.HeaderEnvelopeFrom)
+							md.envfrom = nil
+							continue
+						case op.Kind == "clear-ignoreinvalid":
+							m.SetAddrHeaderIgnoreInvalid(mail.HeaderEnvelopeFrom, "this is no address")
+							md.envfrom = nil
+							continue
 						case op.Kind == "ignoreinvalid":
 							m.SetAddrHeaderIgnoreInvalid(mail.HeaderFrom, addrText(one))
 						case op.Kind == "format" && op.Field == "from":
